@@ -3,11 +3,11 @@ import random
 import proggen
 from sqimpl import hx
 
-INVALID = ['1 +', 'f(', '(1', '[1,\n2', '{1: 2', 'x =', '1 2', 'a b c', '$', 'x = $', '"abc', '1 + $ + 2', 'for', 'while x',
+INVALID = ['a = 1\nb = )', 'y = 1; y +', 'x = 1\nx = x + 1\nx ) 5', 'q = 2\n[q,', 'x = x + 1; $', '1 +', 'f(', '(1', '[1,\n2', '{1: 2', 'x =', '1 2', 'a b c', '$', 'x = $', '"abc', '1 + $ + 2', 'for', 'while x',
            ')', '(1))', '1 +\n2 2', 'a[1:2:3]', 'x | f()', '{1:2,,}', 'del x', '%a', '1 ? 2', '[1, 2\n 3', 'x.y', '(a) => a']
 RUNTIME = ['1 / 0', 'undefined_name', 'nofn(1)', '[1,2][5]', '{"a": 1}["b"]', 'pop([])', 'u += 1', '"a" - 1', 'len(1)',
            'x = 1; x.push(2)', 'int("z")']
-VALID = ['len = 3', 'len([1, 2])', 'str = 1', 'str(2)', 'q = 9', 'q', 'sum = v => 0', 'sum([1, 2])', '1 + 2', 'x = 5', 'x', 'y = [1, 2, 3]', 'y.push(4); y', 'len(y)', 'x = x + 1; x', 'd = {"k": [1]}', 'd["k"].push(2); d',
+VALID = ['len(y)', 'sum(y)', 'max(y)', 'str(x)', 'cfg = {x: y, "n": d}\ncfg', 'list(x, y)', '{x: len(y)}', 'y | sorted | reversed', 'len = 3', 'len([1, 2])', 'str = 1', 'str(2)', 'q = 9', 'q', 'sum = v => 0', 'sum([1, 2])', '1 + 2', 'x = 5', 'x', 'y = [1, 2, 3]', 'y.push(4); y', 'len(y)', 'x = x + 1; x', 'd = {"k": [1]}', 'd["k"].push(2); d',
          'f = n => n * 2', 'f(3)', 'g = n => 1 if n < 2 else n * g(n - 1)', 'g(4)', 'g(30)', 'map([1,2,3], f)', '[1,\n2,\n3]',
          '(1 +\n2)', 'a = 1; b = 2\na + b', '# just a comment', '', '   ', '1 ;; 2', '"s" + 1', 'z = y', 'z.push(9); [y, z]',
          'h = v => v + x', 'h(1)', 'sorted([3,1,2])', 'rand(1, 6)', 'shuffle([1,2,3])', 'x = [x]', 'del d["k"]', 'y[0] = 7; y',
@@ -58,6 +58,9 @@ def history(rng, texts, cache, evals_only=False):
             ent.append(f'(S:{hx("y")} {he.lnum()})')
         if rng.random() < 0.5:
             ent.append(f'(S:{hx("d")} {he.dict_()})')
+        if rng.random() < 0.3:
+            # host bindings shadowing builtins (a cached tree must not remember the builtin)
+            ent.append(f'(S:{hx(rng.choice(["len", "sum", "max", "str", "list"]))} {rng.choice([he.num(), "B:min", "B:len", "B:str"])})')
         maps.append(f'(M {idx} ' + ' '.join(ent) + ')')
     calls = []
     for _ in range(rng.randint(2, 12 if cache is not None else 10)):
@@ -74,7 +77,8 @@ def history(rng, texts, cache, evals_only=False):
         if k <= 1:
             calls.append(('parse', t))
         elif k == 2:
-            calls.append(('names', rng.choice(NAMESRC + [t]), rng.choice(['all', 'all', '0', '1', '2'])))
+            prev = [c[1] for c in calls if c[0] in ('parse', 'eval')]
+            calls.append(('names', rng.choice(NAMESRC + [t] + prev * 3), rng.choice(['all', 'all', 'all', '0', '1', '2'])))
         elif k == 3 and nmaps:
             calls.append(('hostpush', rng.randrange(nmaps), 'y', he.num()))
         else:
